@@ -22,9 +22,7 @@ line-protocol driver.
 * After a Python exception the case is over, so the state after an error is not modelled.
 
 The model describes the code *with the patches of fixes_proposed/C01-1 … C01-8, C10-2 and C12-1
-applied*.  Everything else is mirrored as found, including the combinations the code rejects
-(`Stream.split_to` onto a `MultiStream` outlet, two argument forms of `Stream.copy_flow`) and the
-way `MultiStream.copy_flow` pairs the rows of two multi-phase streams by position.
+and C01-9 … C01-14 applied*.  Everything else is mirrored as found.
 -/
 namespace ThermoVerif.Flow
 
@@ -308,14 +306,10 @@ def putSingle (P Q : List Nat) (same : Bool) (o : Strm) (v : Row) : Except Err S
   if convBad P Q same v then .error .undefinedChemical
   else .ok { o with ph := [(o.phase, tab P.length (conv P Q same v).get)] }
 
-/-- `Stream.split_to` onto one outlet -/
-def putOutlet (P Q : List Nat) (same : Bool) (o : Strm) (v : Row) : Except Err Strm :=
-  if o.multi then
-    -- `s.mol[:] = values` on the read-only phase sum / `s._imol[CASs] = values` without a phase
-    if same then .error .rejected
-    else if v.isZero then .ok (o.zeroed P.length)
-    else if lacks P Q v then .error .undefinedChemical
-    else .error .rejected
+/-- `Stream.split_to` onto one outlet.  A multi-phase outlet first becomes a single-phase stream at the
+feed's phase (`s.phase = self.phase`, as the energy-balance branch does); its old content is overwritten anyway. -/
+def putOutlet (P Q : List Nat) (same : Bool) (fphase : Char) (o : Strm) (v : Row) : Except Err Strm :=
+  if o.multi then putSingle P Q same { o with multi := false, ph := [(fphase, o.total P.length)] } v
   else putSingle P Q same o v
 
 /-- `to_material_indexer(phases)`: move the non-empty rows of `src` to their phase (or its
@@ -371,10 +365,10 @@ def split (w : World) (fi ai bi : Nat) (sp : Split) : Except Err World := do
     .ok (w3.setStrm bi { b2 with ph := pb })
   else
     let m := f.total n
-    let a' ← putOutlet (w.pkgOf a) Q (a.pkg == f.pkg) a (splitTop n sp m)
+    let a' ← putOutlet (w.pkgOf a) Q (a.pkg == f.pkg) f.phase a (splitTop n sp m)
     let w1 := w.setStrm ai a'
     let b0 ← w1.get? bi
-    let b' ← putOutlet (w.pkgOf b0) Q (b0.pkg == f.pkg) b0 (splitBot n sp m)
+    let b' ← putOutlet (w.pkgOf b0) Q (b0.pkg == f.pkg) f.phase b0 (splitBot n sp m)
     .ok (w1.setStrm bi b')
 
 /-! ### copying flow -/
@@ -414,21 +408,16 @@ inductive Sel where
 /-- all positions of the source package but `bad` -/
 def complement (m : Nat) (bad : List Nat) : List Nat := (List.range m).filter (fun k => !bad.contains k)
 
-def selection (Q : List Nat) (same : Bool) (ids : IDs) (exclude : Bool) : Except Err Sel :=
+def selection (Q : List Nat) (ids : IDs) (exclude : Bool) : Except Err Sel :=
   match ids with
   | .all => if exclude then .ok .nothing else .ok .everything
   | .one c =>
     match pos Q c with
-    | none => if exclude then .error .rejected          -- `slice()` : TypeError
+    | none => if exclude then .ok (.some (complement Q.length []))     -- nothing to exclude: every chemical
               else .error .undefinedChemical
-    | some k => if exclude then .ok (.some (complement Q.length [k]))
-                else if same then .ok (.some [k])
-                else .error .rejected                    -- iterating an `int` : TypeError
+    | some k => if exclude then .ok (.some (complement Q.length [k])) else .ok (.some [k])
   | .many cs =>
-    if exclude then
-      let bad := cs.filterMap (pos Q)
-      if bad.isEmpty then .error .rejected               -- `slice()` : TypeError
-      else .ok (.some (complement Q.length bad))
+    if exclude then .ok (.some (complement Q.length (cs.filterMap (pos Q))))
     else do
       let K ← positions Q cs
       .ok (.some K)
@@ -451,7 +440,7 @@ def copySingle (w : World) (di si : Nat) (ids : IDs) (remove exclude : Bool) : E
   let m := Q.length
   let t := s.total m
   let same := d.pkg == s.pkg
-  let sel ← selection Q same ids exclude
+  let sel ← selection Q ids exclude
   match sel with
   | .nothing => .ok w
   | .everything =>
@@ -498,103 +487,97 @@ def zeroCols (n : Nat) (C : Cols) (r : Row) : Row := tab n (fun k => if C.has k 
 /-- only the entries `C` survive -/
 def keepCols (n : Nat) (C : Cols) (r : Row) : Row := tab n (fun k => if C.has k then r.get k else 0)
 
-/-- is row `i` selected by the phase index (`none` = `slice(None)`) -/
-def selRow (R : Option Nat) (i : Nat) : Bool :=
+/-- is the row of phase `p` selected by the phase argument (`none` = `...`) -/
+def selK (R : Option Char) (p : Char) : Bool :=
   match R with
   | none => true
-  | some m => i == m
+  | some q => p == q
 
-/-- rows paired *by position* (`zip(rows, value)`: the shorter side decides); `f i d s` -/
-def zipRowsFrom (f : Nat → Row → Row → Row) (i : Nat) : PhRows → List Row → PhRows
-  | (p, d) :: ds, s :: ss => (p, f i d s) :: zipRowsFrom f (i + 1) ds ss
-  | ds, _ => ds
-
-def mapIdxFrom (f : Nat → Row → Row) (i : Nat) : PhRows → PhRows
+/-- apply `f` to the row of the first entry with phase `q` -/
+def modAt (q : Char) (f : Row → Row) : PhRows → PhRows
   | [] => []
-  | (p, d) :: ds => (p, f i d) :: mapIdxFrom f (i + 1) ds
+  | (p, r) :: l => if p == q then (p, f r) :: l else (p, r) :: modAt q f l
 
-/-- position of a phase in the row order -/
-def phaseIdx (l : PhRows) (p : Char) : Option Nat := (l.map (·.1)).idxOf? p
+/-- two phase tables walked together (equal phase tuples): `step p d s` gives the new rows of both -/
+def pairRows (step : Char → Row → Row → Row × Row) : PhRows → PhRows → PhRows × PhRows
+  | (p, d) :: ds, (q, s) :: ss =>
+    ((p, (step p d s).1) :: (pairRows step ds ss).1, (q, (step p d s).2) :: (pairRows step ds ss).2)
+  | ds, ss => (ds, ss)
 
-def setRowAt (l : PhRows) (m : Nat) (r : Row) : PhRows :=
-  mapIdxFrom (fun i d => if i == m then r else d) 0 l
+/-- one phase of `MultiStream.copy_flow` from a multi-phase source: the new destination row and, when
+`remove`, the new source row -/
+def copyStep (n : Nat) (C : Cols) (R : Option Char) (remove exclude : Bool) (p : Char) (d s : Row) : Row × Row :=
+  if exclude then
+    -- everything is copied, then the excluded entries are restored / kept
+    ((if selK R p then putCols n C (tab n s.get) d else tab n s.get),
+     (if !remove then s else if selK R p then keepCols n C s else vzero n))
+  else if selK R p then (putCols n C d s, if remove then zeroCols n C s else s)
+  else (d, s)
 
-/-- `MultiStream.copy_flow(other, phase, IDs, remove=, exclude=)` (multi-phase destination), as it is:
-rows of a multi-phase source are taken *by position*, not by phase -/
+/-- the rows of destination and source after `MultiStream.copy_flow` (`none` = the source is not touched) -/
+def copyRows (n : Nat) (C : Cols) (R : Option Char) (remove exclude : Bool) (d s : Strm) :
+    Except Err (PhRows × Option PhRows) :=
+  if s.multi then
+    if d.ph.map (·.1) != s.ph.map (·.1) then .error .rejected   -- 'other stream must have the same phases'
+    else
+      let r := pairRows (copyStep n C R remove exclude) d.ph s.ph
+      .ok (r.1, if remove then some r.2 else none)
+  else
+    let srow := s.total n
+    match resolve d.ph s.phase with
+    | none => .error .undefinedPhase
+    | some q =>
+      -- `phase is ... or phase_index == other_phase_index`
+      let hit := selK R q
+      if exclude then
+        .ok (modAt q (fun dr => if hit then putCols n C (tab n srow.get) dr else tab n srow.get) d.ph,
+             if remove then some [(s.phase, if hit then keepCols n C srow else vzero n)] else none)
+      else
+        let d0 := d.ph.map (fun pr => (pr.1, vzero n))
+        if hit then
+          .ok (modAt q (fun _ => putCols n C (vzero n) srow) d0,
+               if remove then some [(s.phase, zeroCols n C srow)] else none)
+        else .ok (d0, none)
+
+/-- write the new rows back: the destination first, then the source -/
+def copyFinish (w : World) (di si : Nat) (d : Strm) (r : PhRows × Option PhRows) : Except Err World :=
+  let w1 := w.setStrm di { d with ph := r.1 }
+  match r.2 with
+  | none => .ok w1
+  | some rs => do
+    let s1 ← w1.get? si
+    .ok (w1.setStrm si { s1 with ph := rs })
+
+/-- the chemical index `IDs_index` of `MultiStream.copy_flow` (looked up in the destination's package) -/
+def colsOf (P : List Nat) (ids : IDs) : Except Err Cols :=
+  match ids with
+  | .all => .ok .all
+  | .one c => match pos P c with
+    | some k => .ok (.one k)
+    | none => .error .undefinedChemical
+  | .many cs => (positions P cs).map Cols.many
+
+/-- the phase index `phase_index` (`none` = `...`), as the phase it resolves to -/
+def phaseOf (l : PhRows) (phase : Option Char) : Except Err (Option Char) :=
+  match phase with
+  | none => .ok none
+  | some p => match resolve l p with
+    | none => .error .undefinedPhase
+    | some q => .ok (some q)
+
+/-- `MultiStream.copy_flow(other, phase, IDs, remove=, exclude=)` (multi-phase destination), with the
+patches C01-12 … C01-14: a multi-phase source must have the destination's phase tuple -/
 def copyMulti (w : World) (di si : Nat) (phase : Option Char) (ids : IDs) (remove exclude : Bool) :
     Except Err World := do
   let d ← w.get? di
   let s ← w.get? si
   let P := w.pkgOf d
-  let Q := w.pkgOf s
-  let n := P.length
-  if d.pkg != s.pkg && P != Q then .error .rejected          -- 'other stream must have the same chemicals'
+  if d.pkg != s.pkg && P != w.pkgOf s then .error .rejected   -- 'other stream must have the same chemicals'
   else do
-  let C ← match ids with
-    | .all => (.ok .all : Except Err Cols)
-    | .one c => match pos P c with
-      | some k => .ok (.one k)
-      | none => .error .undefinedChemical
-    | .many cs => (positions P cs).map Cols.many
-  let R ← match phase with
-    | none => (.ok none : Except Err (Option Nat))
-    | some p => match resolve d.ph p with
-      | none => .error .undefinedPhase
-      | some q => .ok (phaseIdx d.ph q)
-  let srows := s.rows
-  let finish (dph : PhRows) (srows' : Option (List Row)) : Except Err World := do
-    let w1 := w.setStrm di { d with ph := dph }
-    match srows' with
-    | none => .ok w1
-    | some rs => do
-      let s1 ← w1.get? si
-      .ok (w1.setStrm si { s1 with ph := zipRowsFrom (fun _ _ r => r) 0 s1.ph rs })
-  let rowMissing : Bool := match R with
-    | some m => s.multi && srows.length ≤ m
-    | none => false
-  if s.multi then
-    if exclude then
-      let d1 := zipRowsFrom (fun _ _ sr => tab n sr.get) 0 d.ph srows
-      let orig := d.rows
-      let d2 := zipRowsFrom (fun i cur o => if selRow R i then putCols n C cur o else cur) 0 d1 orig
-      if remove then
-        if rowMissing then .error .rejected                  -- `rows[m]` : IndexError
-        else
-          -- `other_data[phase_index, IDs_index]` is the array / row object itself when IDs is `...`:
-          -- it is emptied by `other_data[:] = 0.` before it is written back
-          let srows' := srows.zipIdx.map (fun (r, i) =>
-            if selRow R i && !C.isAll then keepCols n C r else vzero n)
-          finish d2 (some srows')
-      else finish d2 none
-    else
-      if rowMissing then .error .rejected
-      else
-        let d1 := zipRowsFrom (fun i cur sr => if selRow R i then putCols n C cur sr else cur) 0 d.ph srows
-        if remove then
-          finish d1 (some (srows.zipIdx.map (fun (r, i) => if selRow R i then zeroCols n C r else r)))
-        else finish d1 none
-  else
-    let srow := s.total n
-    if exclude then
-      match resolve d.ph s.phase with
-      | none => .error .undefinedPhase
-      | some q =>
-        let opi := (phaseIdx d.ph q).getD 0
-        let d1 := setRowAt d.ph opi (tab n srow.get)
-        let d2 := zipRowsFrom (fun i cur o => if selRow R i then putCols n C cur o else cur) 0 d1 d.rows
-        if remove && (phase.isNone || R == some opi) then
-          finish d2 (some [if C.isAll then vzero n else keepCols n C srow])
-        else finish d2 none
-    else
-      let d0 := d.ph.map (fun pr => (pr.1, vzero n))
-      match resolve d.ph s.phase with
-      | none => .error .undefinedPhase
-      | some q =>
-        let opi := (phaseIdx d.ph q).getD 0
-        if phase.isNone || R == some opi then
-          let d1 := setRowAt d0 opi (putCols n C (vzero n) srow)
-          if remove then finish d1 (some [zeroCols n C srow]) else finish d1 none
-        else finish d0 none
+    let C ← colsOf P ids
+    let R ← phaseOf d.ph phase
+    let r ← copyRows P.length C R remove exclude d s
+    copyFinish w di si d r
 
 /-! ### scaling -/
 
